@@ -147,7 +147,7 @@ def main():
         if os.path.exists(cdir):
             corpus = [l.strip() for l in open(cdir) if l.strip() and not l.startswith("#")]
         cases = corpus + list(mod.gen(rng, a.tier))
-        impl, model = getattr(mod, "run_both", vlib.run_both)(cases, prop, per_shard_timeout=getattr(mod, "SHARD_TIMEOUT", 120))
+        impl, model = getattr(mod, "run_both", vlib.run_both)(cases, prop, per_shard_timeout=getattr(mod, "SHARD_TIMEOUT", 30))
         for c, il, ml in zip(cases, impl, model):
             if ml.startswith(("MODEL-", "BADCASE", "CRASH", "HANG", "MISSING")) or il.startswith(("BADCASE", "MISSING")):
                 raise Broken("correspondence: case not executable on %s" % ("model" if not il.startswith(("BADCASE", "MISSING")) else "harness"),
